@@ -82,6 +82,20 @@ type Case struct {
 	Trace     []string   `json:"trace,omitempty"`
 	History   []string   `json:"history,omitempty"`
 	RaceText  string     `json:"race_report,omitempty"`
+	// Proc says where in which worker process the case was executed (master seed, worker, run
+	// number, tier).  A violation that needs state the code under test keeps in package-level
+	// variables across calls does not reproduce from the case alone; replaying the process
+	// (the same worker executing its runs 0..Run again) reproduces it exactly.
+	Proc *ProcRef `json:"process,omitempty"`
+	// ReplayMode "process": the replay file is replayed through Proc, see there.
+	ReplayMode string `json:"replay_mode,omitempty"`
+}
+
+type ProcRef struct {
+	Seed   string `json:"verif_seed"`
+	Worker int    `json:"worker"`
+	Run    int    `json:"run"`
+	Tier   string `json:"tier"`
 }
 
 func (c *Case) P(name string) int { return c.Params[name] }
